@@ -11,10 +11,14 @@ package main
 import (
 	"context"
 	"encoding/binary"
+	"encoding/json"
 	"fmt"
 	"io"
 	"math/rand"
 	"net"
+	"os"
+	"os/exec"
+	"path/filepath"
 	"runtime"
 	"sort"
 	"strings"
@@ -135,6 +139,8 @@ type c08Case struct {
 	N         int      `json:"n"`      // callers per round
 	Rounds    int      `json:"rounds"` // rounds on the same proxy / connection, one after the other (0 = 1)
 	Proxies   int      `json:"proxies"` // ServantProxy objects (own adapter, own connection to the same server) the callers are spread over (0 = 1)
+	Filters   string   `json:"filters,omitempty"` // "": the harness process (pre client filter only). "prepost" | "cf": child process with pass-through pre+post client filters / a pass-through client filter
+	Wire      []int32  `json:"wire"`    // observed: request ids of all requests the scripted server received, any packet type
 	NConn     int      `json:"nconn"`   // observed: connections the server accepted
 	ConnOf    []int    `json:"conn_of"` // observed, per caller: connection its request arrived on (-1: never seen)
 	Pending   []int32  `json:"pending"` // observed: ids left in the pending-reply table after the last round
@@ -146,6 +152,8 @@ type c08Case struct {
 	Class     string   `json:"class"`
 	Skipped   bool     `json:"skipped,omitempty"` // not run (an earlier genRequestID case hung)
 	Push       bool   `json:"push,omitempty"`        // trace: proxy 0 has a push callback; id-0 packets on its connections must reach it
+	Follow     bool   `json:"follow,omitempty"`      // trace: a caller answered by reply/dup at once makes a second call (index total+k)
+	DupN       int    `json:"dupn,omitempty"`        // trace: act dup sends 3 writes of DupN replies each (0 = 1)
 	Procs      int    `json:"procs,omitempty"`       // trace: GOMAXPROCS during the scenario (0 = unchanged)
 	Spin       int64  `json:"spin,omitempty"`        // wrap: allocations between call A and call B
 	WrapServed []bool `json:"wrap_served,omitempty"` // wrap, observed: did A / B come back with a reply
@@ -268,6 +276,94 @@ func (l *c08Log) add(e c08Ev) {
 	l.mu.Unlock()
 }
 
+// ---- scenarios with registered client filters run in a child process (filters are process-global and select the branch
+// TarsInvoke takes around doInvoke): "prepost" = the logging pre client filter plus pass-through post client filters,
+// "cf" = one pass-through client filter (RegisterClientFilter), "mw" = one pass-through client filter middleware.
+var c08InChild bool
+
+func c08InstallFilters(mode string) {
+	c08Communicator() // registers the logging pre client filter
+	pass := func(ctx context.Context, msg *tars.Message, invoke tars.Invoke, timeout time.Duration) error { return nil }
+	switch mode {
+	case "prepost":
+		tars.RegisterPreClientFilter(pass)
+		tars.RegisterPostClientFilter(pass)
+		tars.RegisterPostClientFilter(pass)
+	case "cf":
+		tars.RegisterClientFilter(func(ctx context.Context, msg *tars.Message, invoke tars.Invoke, timeout time.Duration) error {
+			_ = c08PreFilter(ctx, msg, invoke, timeout)
+			return invoke(ctx, msg, timeout)
+		})
+	case "mw":
+		tars.UseClientFilterMiddleware(func(next tars.ClientFilter) tars.ClientFilter {
+			return func(ctx context.Context, msg *tars.Message, invoke tars.Invoke, timeout time.Duration) error {
+				_ = c08PreFilter(ctx, msg, invoke, timeout)
+				return next(ctx, msg, invoke, timeout)
+			}
+		})
+	default:
+		fatal("c08-child: unknown filter mode %q", mode)
+	}
+}
+
+type c08ChildOut struct {
+	Case  c08Case   `json:"case"`
+	Fails []Failure `json:"fails"`
+}
+
+func init() {
+	props["c08-child"] = func(a Args) {
+		b, err := os.ReadFile(a.Replay)
+		if err != nil {
+			fatal("c08-child: %v", err)
+		}
+		var c c08Case
+		if err := json.Unmarshal(b, &c); err != nil {
+			fatal("c08-child: %v", err)
+		}
+		c08InChild = true
+		c08InstallFilters(c.Filters)
+		fs := c08RunTrace(&c)
+		ob, _ := json.Marshal(c08ChildOut{Case: c, Fails: fs})
+		if err := os.WriteFile(a.Out, ob, 0o644); err != nil {
+			fatal("c08-child: %v", err)
+		}
+	}
+}
+
+var c08ChildSeq int
+
+func c08RunChild(c *c08Case, dir string) []Failure {
+	c08ChildSeq++
+	in := filepath.Join(dir, fmt.Sprintf("c08-child-%d-in.json", c08ChildSeq))
+	out := filepath.Join(dir, fmt.Sprintf("c08-child-%d-out.json", c08ChildSeq))
+	b, _ := json.Marshal(c)
+	if err := os.WriteFile(in, b, 0o644); err != nil {
+		fatal("c08 child input: %v", err)
+	}
+	ctx, cancel := context.WithTimeout(context.Background(), 5*time.Minute)
+	defer cancel()
+	cmd := exec.CommandContext(ctx, os.Args[0], "c08-child", "replay="+in, "out="+out)
+	msg, err := cmd.CombinedOutput()
+	var res c08ChildOut
+	if err == nil {
+		var ob []byte
+		if ob, err = os.ReadFile(out); err == nil {
+			err = json.Unmarshal(ob, &res)
+		}
+	}
+	if err != nil {
+		tail := string(msg)
+		if len(tail) > 600 {
+			tail = tail[len(tail)-600:]
+		}
+		c.Skipped = true
+		return []Failure{{Sig: "child/scenario-process-failed", Desc: fmt.Sprintf("the child process running the scenario with client filters %q did not deliver a result: %v; output: %s", c.Filters, err, tail)}}
+	}
+	*c = res.Case
+	return res.Fails
+}
+
 func c08RunTrace(c *c08Case) []Failure {
 	if c.Procs > 0 {
 		defer runtime.GOMAXPROCS(runtime.GOMAXPROCS(c.Procs))
@@ -290,7 +386,7 @@ func c08RunTrace(c *c08Case) []Failure {
 		c08SetHook(obj, func(req *requestf.RequestPacket) {
 			b := tools.Int8ToByte(req.SBuffer)
 			if len(b) == 8 {
-				log.add(c08Ev{Kind: "reg", K: int(binary.BigEndian.Uint32(b)), ID: req.IRequestId})
+				log.add(c08Ev{Kind: "reg", K: int(binary.BigEndian.Uint32(b)), ID: req.IRequestId, Oneway: req.CPacketType == basef.TARSONEWAY})
 			}
 		})
 		defer c08SetHook(obj, nil)
@@ -303,6 +399,27 @@ func c08RunTrace(c *c08Case) []Failure {
 			}
 			log.add(e)
 		})
+	}
+	// a proxy whose endpoint refuses connections: its calls fail inside doInvoke (act "fail")
+	var deadSp *tars.ServantProxy
+	for _, a := range c.Acts {
+		if a == "fail" && deadSp == nil {
+			dl, err := net.Listen("tcp", "127.0.0.1:0")
+			if err != nil {
+				fatal("listen: %v", err)
+			}
+			dport := dl.Addr().(*net.TCPAddr).Port
+			dl.Close()
+			obj := c08NextObj("C08Dead")
+			deadSp = c08Proxy(obj, dport)
+			c08SetHook(obj, func(req *requestf.RequestPacket) {
+				b := tools.Int8ToByte(req.SBuffer)
+				if len(b) == 8 {
+					log.add(c08Ev{Kind: "reg", K: int(binary.BigEndian.Uint32(b)), ID: req.IRequestId, Oneway: req.CPacketType == basef.TARSONEWAY})
+				}
+			})
+			defer c08SetHook(obj, nil)
+		}
 	}
 	pendingIDs := func() []int32 {
 		var ids []int32
@@ -324,6 +441,14 @@ func c08RunTrace(c *c08Case) []Failure {
 		ci   int
 	}
 	reqCh := make(chan seen, total+8)
+	// follow-up calls (caller index total+k): a caller that was answered (acts reply, dup) at once makes a second call on
+	// the same proxy; the server answers it on sight. Whatever the first call left behind (receivers still holding its
+	// channel, stale packets) must not reach the second.
+	var followMu sync.Mutex
+	followSeen := map[int]seen{}
+	var sendFn func(conn net.Conn, id int32, pay []byte, ow bool)
+	var wireMu sync.Mutex
+	var wire []int32
 	var wmu sync.Mutex
 	var conns []net.Conn
 	var cmu sync.Mutex
@@ -343,8 +468,18 @@ func c08RunTrace(c *c08Case) []Failure {
 					if err != nil {
 						return
 					}
+					wireMu.Lock()
+					wire = append(wire, req.IRequestId)
+					wireMu.Unlock()
 					b := tools.Int8ToByte(req.SBuffer)
 					if len(b) != 8 {
+						continue
+					}
+					if k := int(binary.BigEndian.Uint32(b)); k >= total {
+						followMu.Lock()
+						followSeen[k] = seen{k, req.IRequestId, conn, ci}
+						followMu.Unlock()
+						sendFn(conn, req.IRequestId, c08Payload(uint32(k), 0), false)
 						continue
 					}
 					reqCh <- seen{int(binary.BigEndian.Uint32(b)), req.IRequestId, conn, ci}
@@ -388,19 +523,24 @@ func c08RunTrace(c *c08Case) []Failure {
 		wmu.Unlock()
 	}
 
+	sendFn = send
 	if c.SetID {
 		tars.VerifC08SetMsgID(c.Start)
 	}
 	type outc struct {
-		got bool
-		pay uint64
+		got    bool // a two-way call came back without an error
+		pay    uint64
+		noBody bool // ... but its ResponsePacket carries no payload
+		owBody bool // a one-way call came back with a payload
 	}
-	outs := make([]outc, total)
+	outs := make([]outc, 2*total)
 	reqs := map[int]seen{}
 	var fs []Failure
 	var lateWg sync.WaitGroup
 	var doneList []int // callers known to have returned
-	patient := func(k int) bool { return c.Acts[k] != "none" && c.Acts[k] != "late" }
+	patient := func(k int) bool {
+		return c.Acts[k] != "none" && c.Acts[k] != "late" && c.Acts[k] != "ow" && c.Acts[k] != "fail"
+	}
 	replied := map[int]time.Time{} // callers the server has written the genuine reply to, and when
 	started := map[int]time.Time{}
 	wantPush := map[uint64]int{} // payloads of id-0 packets written to connections of the proxy that has a push callback
@@ -422,19 +562,44 @@ func c08RunTrace(c *c08Case) []Failure {
 				ctx, cancel := context.WithTimeout(context.Background(), to)
 				defer cancel()
 				var resp requestf.ResponsePacket
-				err := sps[k%nprox].TarsInvoke(ctx, 0, "echo", c08Payload(uint32(k), 0), nil, nil, &resp)
+				sp, ptype := sps[k%nprox], byte(basef.TARSNORMAL)
+				if c.Acts[k] == "fail" {
+					sp = deadSp
+				}
+				if c.Acts[k] == "ow" {
+					ptype = byte(basef.TARSONEWAY)
+				}
+				err := sp.TarsInvoke(ctx, ptype, "echo", c08Payload(uint32(k), 0), nil, nil, &resp)
 				o := outc{}
-				if err == nil {
-					b := tools.Int8ToByte(resp.SBuffer)
-					if len(b) == 8 {
-						o = outc{true, binary.BigEndian.Uint64(b)}
-					} else {
-						o = outc{true, uint64(c08Poison)<<32 | 0xBAD}
-					}
+				b := tools.Int8ToByte(resp.SBuffer)
+				switch {
+				case c.Acts[k] == "ow":
+					o.owBody = err == nil && len(b) != 0
+				case err == nil && len(b) == 8:
+					o = outc{got: true, pay: binary.BigEndian.Uint64(b)}
+				case err == nil:
+					o = outc{got: true, pay: uint64(c08Poison)<<32 | 0xBAD, noBody: true}
 				}
 				outs[k] = o
 				log.add(c08Ev{Kind: "end", K: k, Got: o.got, Pay: o.pay})
 				close(ended[k])
+				if c.Follow && o.got && (c.Acts[k] == "reply" || c.Acts[k] == "dup") { // follow-up call, at once, same proxy
+					fk := total + k
+					ctx2, cancel2 := context.WithTimeout(context.Background(), c08Patience)
+					defer cancel2()
+					var resp2 requestf.ResponsePacket
+					err := sp.TarsInvoke(ctx2, byte(basef.TARSNORMAL), "echo", c08Payload(uint32(fk), 0), nil, nil, &resp2)
+					o2 := outc{}
+					b2 := tools.Int8ToByte(resp2.SBuffer)
+					switch {
+					case err == nil && len(b2) == 8:
+						o2 = outc{got: true, pay: binary.BigEndian.Uint64(b2)}
+					case err == nil:
+						o2 = outc{got: true, pay: uint64(c08Poison)<<32 | 0xBAD, noBody: true}
+					}
+					outs[fk] = o2
+					log.add(c08Ev{Kind: "end", K: fk, Got: o2.got, Pay: o2.pay})
+				}
 			}(k)
 		}
 		started[round] = time.Now()
@@ -442,9 +607,14 @@ func c08RunTrace(c *c08Case) []Failure {
 
 		// server script: collect the round's requests, then handle them in the scripted order
 		deadline := time.After(4 * time.Second)
-		have := 0
+		have, expect := 0, 0
+		for k := lo; k < hi; k++ {
+			if c.Acts[k] != "fail" {
+				expect++
+			}
+		}
 	collect:
-		for have < c.N {
+		for have < expect {
 			select {
 			case s := <-reqCh:
 				if _, dup := reqs[s.k]; !dup && s.k >= lo && s.k < hi {
@@ -476,7 +646,7 @@ func c08RunTrace(c *c08Case) []Failure {
 		oneConn := len(usedConn) > 0 && len(usedConn) == len(usedProx) // one connection per proxy in use
 		for k := lo; k < hi && oneConn; k++ {
 			if s, ok := reqs[k]; ok && patient(k) && !inSnap[s.id] {
-				fs = append(fs, Failure{Sig: "call/outstanding-call-has-no-entry", Desc: fmt.Sprintf("caller %d is outstanding with request id %d (request seen by the server, no reply sent, 8 s deadline) but the pending-reply table holds only %v", k, s.id, snap)})
+				fs = append(fs, Failure{Sig: "call/outstanding-call-has-no-entry", Desc: fmt.Sprintf("caller %d is outstanding with request id %d (request seen by the server, no reply sent, deadline far away) but the pending-reply table holds only %v", k, s.id, snap)})
 				break
 			}
 		}
@@ -502,10 +672,25 @@ func c08RunTrace(c *c08Case) []Failure {
 					case <-time.After(20 * time.Millisecond):
 					}
 				}
-			case "dup":
-				genuine()
-				send(s.conn, s.id, c08Payload(uint32(k), 1), false)
-				send(s.conn, s.id, c08Payload(uint32(k), 2), false)
+			case "dup": // a stream of replies (3 writes of DupN, default 1): receivers keep finding the entry while the first reply is handed over and the caller leaves
+				replied[k] = time.Now()
+				ci := connIdx(s.conn)
+				wmu.Lock()
+				per := uint32(c.DupN)
+				if per == 0 {
+					per = 1
+				}
+				for w := uint32(0); w < 3; w++ {
+					var buf []byte
+					for v := w * per; v < w*per+per; v++ {
+						pay := c08Payload(uint32(k), v)
+						log.add(c08Ev{Kind: "pkt", ID: s.id, Pay: binary.BigEndian.Uint64(pay), Conn: ci})
+						buf = append(buf, c08EncodeResponse(s.id, basef.TARSNORMAL, pay)...)
+					}
+					s.conn.SetWriteDeadline(time.Now().Add(5 * time.Second))
+					s.conn.Write(buf)
+				}
+				wmu.Unlock()
 			case "none":
 			case "late":
 				lateWg.Add(1)
@@ -530,6 +715,9 @@ func c08RunTrace(c *c08Case) []Failure {
 			case "oneway": // right id, one-way packet type: dropped by Recv
 				send(s.conn, s.id, c08Payload(c08Poison, uint32(k)), true)
 				genuine()
+			case "ow": // a one-way request is never answered; a peer that echoes it anyway (same id, poisoned payload) must reach nobody
+				send(s.conn, s.id, c08Payload(c08Poison, uint32(k)), false)
+			case "fail": // never arrives
 			case "fcross": // this call's id, poisoned payload, on another connection of the process (if there is one)
 				cmu.Lock()
 				var other net.Conn
@@ -602,13 +790,18 @@ func c08RunTrace(c *c08Case) []Failure {
 	cmu.Lock()
 	c.NConn = len(conns)
 	cmu.Unlock()
-	c.ConnOf = make([]int, total)
+	c.ConnOf = make([]int, 2*total)
+	followMu.Lock()
 	for k := range c.ConnOf {
 		c.ConnOf[k] = -1
 		if s, ok := reqs[k]; ok {
 			c.ConnOf[k] = s.ci
 		}
+		if s, ok := followSeen[k]; ok {
+			c.ConnOf[k] = s.ci
+		}
 	}
+	followMu.Unlock()
 	log.mu.Lock()
 	c.Events = append([]c08Ev(nil), log.ev...)
 	log.mu.Unlock()
@@ -651,8 +844,32 @@ func c08RunTrace(c *c08Case) []Failure {
 			delete(active, idOf[e.K])
 		}
 	}
+	wireMu.Lock()
+	c.Wire = append([]int32(nil), wire...)
+	wireMu.Unlock()
+	onWire := map[int32]bool{}
+	for _, id := range c.Wire {
+		if id == 0 {
+			fs = append(fs, Failure{Sig: "wire/request-id-zero", Desc: "the scripted server received a request carrying request id 0 (reserved for server push)"})
+			break
+		}
+	}
+	for _, id := range c.Wire {
+		if onWire[id] {
+			fs = append(fs, Failure{Sig: "wire/request-id-repeated", Desc: fmt.Sprintf("the scripted server received request id %d twice among the %d requests of the scenario (all packet types)", id, len(c.Wire))})
+			break
+		}
+		onWire[id] = true
+	}
 	for k := 0; k < total; k++ {
 		o := outs[k]
+		if o.noBody {
+			fs = append(fs, Failure{Sig: "call/success-without-a-reply", Desc: fmt.Sprintf("caller %d (act %s, filters %q): TarsInvoke returned a nil error for a two-way call but the ResponsePacket carries no reply (neither its own response nor an error)", k, c.Acts[k], c.Filters)})
+			continue
+		}
+		if o.owBody {
+			fs = append(fs, Failure{Sig: "call/one-way-call-received-a-payload", Desc: fmt.Sprintf("caller %d made a one-way call and came back with a payload", k)})
+		}
 		if o.got && uint32(o.pay>>32) != uint32(k) {
 			fs = append(fs, Failure{Sig: "call/foreign-reply-delivered", Desc: fmt.Sprintf("caller %d (act %s) received payload %016x, which is not its own (forged id 0 / unknown id / completed id / one-way packets, other callers' replies and replies to earlier calls must reach nobody else)", k, c.Acts[k], o.pay)})
 		}
@@ -661,6 +878,16 @@ func c08RunTrace(c *c08Case) []Failure {
 		}
 		if at, ok := replied[k]; ok && !o.got && patient(k) && at.Sub(started[k/c.N]) < c08Patience/2 {
 			fs = append(fs, Failure{Sig: "call/matching-reply-not-delivered", Desc: fmt.Sprintf("caller %d (act %s, id %d): the server wrote the matching reply %v after the round started, the caller's deadline was %v, but the call ended without it", k, c.Acts[k], reqs[k].id, at.Sub(started[k/c.N]).Round(time.Millisecond), c08Patience)})
+		}
+	}
+	for fk := total; fk < 2*total; fk++ {
+		o := outs[fk]
+		if o.noBody {
+			fs = append(fs, Failure{Sig: "call/success-without-a-reply", Desc: fmt.Sprintf("follow-up call of caller %d (filters %q): TarsInvoke returned a nil error for a two-way call but the ResponsePacket carries no reply", fk-total, c.Filters)})
+		} else if o.got && uint32(o.pay>>32) != uint32(fk) {
+			fs = append(fs, Failure{Sig: "call/foreign-reply-delivered", Desc: fmt.Sprintf("the follow-up call caller %d (act %s) made right after its first call was answered received payload %016x, which is not its own (a reply to the earlier call reached the later one)", fk-total, c.Acts[fk-total], o.pay)})
+		} else if _, seenReq := followSeen[fk]; seenReq && !o.got {
+			fs = append(fs, Failure{Sig: "call/matching-reply-not-delivered", Desc: fmt.Sprintf("follow-up call of caller %d: the server answered it on sight, the deadline was %v, but the call ended without the reply", fk-total, c08Patience)})
 		}
 	}
 	if len(c.Pending) != 0 {
@@ -829,6 +1056,7 @@ func c08Labels(c *c08Case) (int, string, string, string) {
 	var snaps []string
 	idx := map[int]int{} // caller -> call number on its adapter
 	idOf := map[int]int32{}
+	owOf := map[int]bool{}
 	type rcv struct {
 		id     int32
 		pay    uint64
@@ -847,8 +1075,11 @@ func c08Labels(c *c08Case) (int, string, string, string) {
 			a := adOf(e.K)
 			idx[e.K] = len(outs[a])
 			idOf[e.K] = e.ID
-			add(a, "LRegister (%d)%%Z false", e.ID)
-			add(a, "LSendOk %d", idx[e.K])
+			owOf[e.K] = e.Oneway
+			add(a, "LRegister (%d)%%Z %s", e.ID, coqBool(e.Oneway))
+			if a != c.NConn { // the request reached the server: the send succeeded
+				add(a, "LSendOk %d", idx[e.K])
+			}
 			outs[a] = append(outs[a], "None")
 		case "pkt":
 			a := e.Conn
@@ -865,6 +1096,19 @@ func c08Labels(c *c08Case) (int, string, string, string) {
 				continue
 			}
 			a := adOf(e.K)
+			if a == c.NConn { // the request never reached the server: the send failed (or never happened)
+				if e.Got {
+					add(a, "LSendOk %d", ci)
+				} else {
+					add(a, "LSendFail %d", ci)
+					add(a, "LReturn %d", ci)
+					continue
+				}
+			}
+			if owOf[e.K] && !e.Got { // a one-way call returns right after the send
+				add(a, "LReturn %d", ci)
+				continue
+			}
 			if e.Got {
 				r := -1
 				for i := range rs[a] {
@@ -958,7 +1202,7 @@ func c08Coq(c *c08Case) string {
 			}
 		}
 	}
-	return fmt.Sprintf("KTrace (%d%%nat, %s, %s, %s, %s, ([%s], [%s]))", nad, ls, outs, snaps, c08Zs(c.Pending), strings.Join(pads, "; "), strings.Join(pushes, "; "))
+	return fmt.Sprintf("KTrace ((%d%%nat, %s, %s, %s, %s, ([%s], [%s])), %s)", nad, ls, outs, snaps, c08Zs(c.Pending), strings.Join(pads, "; "), strings.Join(pushes, "; "), c08Zs(c.Wire))
 }
 
 func c08Gen(tier string, rng *rand.Rand) []c08Case {
@@ -1022,14 +1266,18 @@ func c08Gen(tier string, rng *rand.Rand) []c08Case {
 			sizes = append(sizes, 1, 4, 4, 32, 32, 256, 8, 64, 128, 2, 16)
 		}
 	}
-	kinds := []string{"reply", "dup", "none", "late", "f0", "funk", "oneway", "fdone", "fcross"}
+	kinds := []string{"reply", "dup", "none", "late", "f0", "funk", "oneway", "fdone", "fcross", "ow", "ow", "fail"}
 	for si, n := range sizes {
 		c := c08Case{Kind: "trace", N: n, TimeoutMs: 150 + rng.Intn(200)}
 		// rounds on the same proxy and connection: replies to one round's calls (late, duplicated) arrive during the next
 		c.Rounds = 1 + rng.Intn(3)
 		if n >= 256 {
 			c.Rounds = 1 + rng.Intn(2)
+			if tier != "thorough" {
+				c.Rounds = 1
+			}
 		}
+		c.Follow = n <= 64
 		if si == 0 || si == 3 {
 			c.Rounds = 3
 		}
@@ -1083,6 +1331,65 @@ func c08Gen(tier string, rng *rand.Rand) []c08Case {
 		c.Class = fmt.Sprintf("trace/n%d/r%d/p%d/g%d/push%v/ids%d/%s", n, c.Rounds, c.Proxies, c.Procs, c.Push, si%4, strings.Join(ks, "+"))
 		cs = append(cs, c)
 	}
+	// answered-then-call-again chains: every caller gets five replies at once and immediately calls again, three rounds
+	ndc := 3
+	if tier == "thorough" {
+		ndc = 12
+	}
+	for i := 0; i < ndc; i++ {
+		n := []int{16, 32, 8, 24, 12, 1}[i%6]
+		c := c08Case{Kind: "trace", N: n, Rounds: 3, Proxies: 1 + i%2, TimeoutMs: 200, DupN: 8, Follow: true}
+		if n == 1 {
+			c.Proxies = 1
+		}
+		if tier == "thorough" {
+			c.Procs = []int{0, 1, 2, 4}[i%4]
+		}
+		for k := 0; k < n*c.Rounds; k++ {
+			c.Acts = append(c.Acts, "dup")
+		}
+		for r := 0; r < c.Rounds; r++ {
+			for _, k := range rng.Perm(n) {
+				c.Order = append(c.Order, r*n+k)
+			}
+		}
+		c.Class = fmt.Sprintf("trace-dupchain/n%d/p%d/g%d", n, c.Proxies, c.Procs)
+		cs = append(cs, c)
+	}
+	// scenarios with registered pass-through client filters (child process each): calls that succeed, time out, fail in
+	// doInvoke, one-way calls — the outcome at the call site must be the own reply or an error
+	nf := 1
+	if tier == "thorough" {
+		nf = 4
+	}
+	fkinds := []string{"reply", "none", "fail", "late", "ow", "dup", "reply", "none", "fail", "f0", "oneway"}
+	for i := 0; i < nf; i++ {
+		for _, mode := range []string{"prepost", "cf", "mw"} {
+			n := []int{4, 8, 16, 32}[rng.Intn(4)]
+			c := c08Case{Kind: "trace", N: n, Rounds: 1 + rng.Intn(2), Proxies: 1 + rng.Intn(2), TimeoutMs: 150 + rng.Intn(200), Filters: mode, Push: rng.Intn(2) == 0, Follow: true}
+			used := map[string]bool{}
+			for k := 0; k < n*c.Rounds; k++ {
+				a := fkinds[rng.Intn(len(fkinds))]
+				if k < 3 {
+					a = []string{"none", "fail", "reply"}[k]
+				}
+				c.Acts = append(c.Acts, a)
+				used[a] = true
+			}
+			for r := 0; r < c.Rounds; r++ {
+				for _, k := range rng.Perm(n) {
+					c.Order = append(c.Order, r*n+k)
+				}
+			}
+			var ks []string
+			for a := range used {
+				ks = append(ks, a)
+			}
+			sort.Strings(ks)
+			c.Class = fmt.Sprintf("trace-filters/%s/n%d/r%d/p%d/%s", mode, n, c.Rounds, c.Proxies, strings.Join(ks, "+"))
+			cs = append(cs, c)
+		}
+	}
 	return cs
 }
 
@@ -1106,8 +1413,8 @@ func init() {
 			ID: "C08", Require: "From TarsV Require Import Base.Hex Rpc.ReqId Conc.Pending Conc.C08Corr.", CaseType: "c08_case",
 			Mismatch: "failing_from c08_check",
 			Corr:     "C08Corr.c08_check (gen_seq = real genRequestID from a set counter; concurrent batches within the theorems' conclusions; maccepts = the recorded trace, per connection, is a good run of the product of pending-table machines with the observed outcomes, table snapshots and empty tables at the end; wrap witness = the theorem's prediction)",
-			Rule:     "genRequestID: counter set to 0/maxInt32/minInt32 +-4, 2^30, random, then 1-7 calls single-threaded (exact vs gen_seq); 2-32 threads x 4-33 calls straddling 0, maxInt32, minInt32 (non-zero, distinct, reachable window, in Coq); 4-32 threads x 20000-40000 calls (monitor: non-zero, distinct, no lost increment). Scripted raw TCP server: N in {1,2,4,8,16,32,64,128,256} concurrent callers spread over 1-2 ServantProxy objects (own adapter and connection each), 1-3 rounds on the same connections, per caller one of reply / three replies / no reply / reply after the caller left / forged id 0 / forged unknown ids / one-way typed packet with the right id / id of a completed call / right id on another connection; server handling order a random permutation per round; request ids positioned to cross 0, the wrap threshold, or be negative; GOMAXPROCS 1,2,4,16 in thorough; table snapshot while the round is outstanding. Thorough: full-cycle wrap witness (2^31 allocations). class = (kind, counter zone, threads | N, rounds, proxies, GOMAXPROCS, id zone, set of acts)",
-			Shard:    8,
+			Rule:     "genRequestID: counter set to 0/maxInt32/minInt32 +-4, 2^30, random, then 1-7 calls single-threaded (exact vs gen_seq); 2-32 threads x 4-33 calls straddling 0, maxInt32, minInt32 (non-zero, distinct, reachable window, in Coq); 4-32 threads x 20000-40000 calls (monitor: non-zero, distinct, no lost increment). Scripted raw TCP server: N in {1,2,4,8,16,32,64,128,256} concurrent callers spread over 1-2 ServantProxy objects (own adapter and connection each), 1-3 rounds on the same connections, per caller one of reply / three replies / no reply / reply after the caller left / forged id 0 / forged unknown ids / one-way typed packet with the right id / id of a completed call / right id on another connection / one-way call (echoed by the peer under its id) / call failing in doInvoke (refused endpoint); answered callers call again at once (follow-up); dup-chain scenarios (3x8 replies per call); client-filter scenarios in child processes (pass-through pre+post filters, client filter, middleware); ids of all requests received by the server non-zero and distinct; server handling order a random permutation per round; request ids positioned to cross 0, the wrap threshold, or be negative; GOMAXPROCS 1,2,4,16 in thorough; table snapshot while the round is outstanding. Thorough: full-cycle wrap witness (2^31 allocations). class = (kind, counter zone, threads | N, rounds, proxies, GOMAXPROCS, id zone, set of acts)",
+			Shard:    4,
 			Workers:  1,
 			Gen:      c08Gen,
 			Coq:      c08Coq,
@@ -1121,6 +1428,8 @@ func init() {
 					}
 					if cs[i].Kind == "wrap" {
 						fails[i] = c08RunWrap(&cs[i])
+					} else if cs[i].Kind == "trace" && cs[i].Filters != "" {
+						fails[i] = c08RunChild(&cs[i], a.Out)
 					} else if cs[i].Kind == "trace" {
 						fails[i] = c08RunTrace(&cs[i])
 					} else {
